@@ -5,7 +5,7 @@
 From Coq Require Import ZArith List Bool String.
 From Coq Require Extraction.
 From Coq Require Import ExtrOcamlBasic ExtrOcamlString.
-From HV Require Import Model.ByteVecModel Model.ByteVecHeapModel.
+From HV Require Import Model.ByteVecModel Model.ByteVecHeapModel Model.MemOpsModel.
 Import ListNotations.
 Open Scope Z_scope.
 
@@ -17,7 +17,8 @@ Inductive cmd : Type :=
 | CStep (s : hstep Z)
 | CGet (r off : nat)          (* objects[r].get_byte(off) *)
 | CUnwrap (r : nat)           (* objects[r].unwrap() *)
-| CWord (r off : nat).        (* objects[r].slice(off, off + 32).unwrap() *)
+| CWord (r off : nat)         (* objects[r].slice(off, off + 32).unwrap() *)
+| CSetItem (r : nat) (start stop : option nat) (v : hval Z).   (* objects[r][start:stop] = v *)
 
 (* value encodings:  0 sym n d1..dn start len | 1 r a b | 2 r *)
 Definition dec_val (l : list Z) : option (hval Z * list Z) :=
@@ -48,7 +49,7 @@ Definition dec_val (l : list Z) : option (hval Z * list Z) :=
 
 (* command encodings:
    0 | 1 r | 2 r a b | 3 r <val> | 4 r off sym x | 5 r a b <val> | 6 r off <val>
-   7 r off | 8 r | 9 r off *)
+   7 r off | 8 r | 9 r off | 10 r has_start start has_stop stop <val> *)
 Fixpoint dec_cmds (fuel : nat) (l : list Z) : list cmd :=
   match fuel with
   | O => []
@@ -103,6 +104,17 @@ Fixpoint dec_cmds (fuel : nat) (l : list Z) : list cmd :=
             match r with o :: r1 => CUnwrap (zn o) :: dec_cmds f r1 | _ => [] end
           else if t =? 9 then
             match r with o :: off :: r1 => CWord (zn o) (zn off) :: dec_cmds f r1 | _ => [] end
+          else if t =? 10 then
+            match r with
+            | o :: hs :: a :: he :: b :: r1 =>
+                match dec_val r1 with
+                | Some (v, r2) =>
+                    CSetItem (zn o) (if hs =? 1 then Some (zn a) else None)
+                             (if he =? 1 then Some (zn b) else None) v :: dec_cmds f r2
+                | None => []
+                end
+            | _ => []
+            end
           else []
       end
   end.
@@ -140,19 +152,30 @@ Definition out_seg (s : seg Z) : list Z :=
 
 Definition framed (l : list Z) : list Z := nz (List.length l) :: l.
 
+Definition exec_step (h : heap Z) (s : hstep Z) (k : heap Z -> list Z) : list Z :=
+  match h_step Z 0 FUEL h s with
+  | Some (h', raised) =>
+      match obs_all h' (List.length h') O with
+      | Some o => framed ([if raised then 1 else 0; nz (List.length h')] ++ o) ++ k h'
+      | None => [1; -1]
+      end
+  | None => [1; -1]
+  end.
+
 (* every command emits  n x1..xn ; a model error emits  1 -1  and stops *)
 Fixpoint exec (h : heap Z) (cs : list cmd) : list Z :=
   match cs with
   | [] => []
   | c :: r =>
+      let exec_after := fun h' => exec h' r in
       match c with
-      | CStep s =>
-          match h_step Z 0 FUEL h s with
-          | Some (h', raised) =>
-              match obs_all h' (List.length h') O with
-              | Some o => framed ([if raised then 1 else 0; nz (List.length h')] ++ o) ++ exec h' r
-              | None => [1; -1]
-              end
+      | CStep s => exec_step h s exec_after
+      | CSetItem o os oe v =>
+          (* __setitem__ resolves the bounds against the receiver's current length, then
+             calls set_slice (ByteVecModel.setitem_slice) *)
+          match h_load Z FUEL h o with
+          | Some t =>
+              exec_step h (HMut o (HSetSlice (fst (setitem_bounds t os oe)) (snd (setitem_bounds t os oe)) v)) exec_after
           | None => [1; -1]
           end
       | CGet o off =>
@@ -196,7 +219,206 @@ Definition c07_setitem (a : list Z) : list Z :=
   | _ => []
   end.
 
+(* ByteVec(bytes d)[start:stop]  ->  [len; bytes...] *)
+Definition c07_getitem (a : list Z) : list Z :=
+  match a with
+  | hs :: s :: he :: e :: n :: r =>
+      let d := firstn (zn n) r in
+      let v := append (@empty Z) (wrap false d) in
+      let os := if hs =? 1 then Some (zn s) else None in
+      let oe := if he =? 1 then Some (zn e) else None in
+      let g := getitem_slice Z 0 v os oe in
+      nz (blen g) :: flat g
+  | _ => []
+  end.
+
+(* ---- the memory-instruction layer (Model/MemOpsModel.v) ----
+   leaf:  sym n d1..dn start len          bvec:  k leaf1..leafk  (ByteVec([...]): appended)
+   basic op:  0 loc <leaf> | 1 loc sym x | 2 kind loc off size [<bvec> when kind = 3]
+              (kind 0 calldata, 1 code, 2 account without code, 3 account with code)
+              | 3 loc off size | 4 dst src size | 5 src dst
+   op:        <basic op> | 6 <bvec ccode> aloc asize nbody <basic ops> roff rsize oloc osize
+              | 7 loc size nbody <basic ops> roff rsize reverts
+   input:     <bvec calldata> <bvec code> nops <ops>
+   input:     ... optionally followed by  roff rsize  (the frame ends with RETURN / REVERT)
+   output:    status (0 ok, 1 halt, 2 python exception, 3 malformed input)
+              [len; nlayout; layout...; nflat; flat...; nrd; rd...; msize; nout; out...]  *)
+Definition dec_leaf (l : list Z) : option (chunk Z * list Z) :=
+  match l with
+  | sym :: n :: r1 =>
+      match skipn (zn n) r1 with
+      | st :: ln :: r2 => Some (Leaf (sym =? 1) (firstn (zn n) r1) (zn st) (zn ln), r2)
+      | _ => None
+      end
+  | _ => None
+  end.
+
+Fixpoint dec_leaves (k : nat) (l : list Z) : option (list (chunk Z) * list Z) :=
+  match k with
+  | O => Some ([], l)
+  | S k' =>
+      match dec_leaf l with
+      | Some (c, r) =>
+          match dec_leaves k' r with
+          | Some (cs, r2) => Some (c :: cs, r2)
+          | None => None
+          end
+      | None => None
+      end
+  end.
+
+Definition dec_bvec (l : list Z) : option (bvec Z * list Z) :=
+  match l with
+  | k :: r =>
+      match dec_leaves (zn k) r with
+      | Some (cs, r2) => Some (from_leaves cs, r2)
+      | None => None
+      end
+  | [] => None
+  end.
+
+Definition dec_mbop (l : list Z) : option (mbop Z * list Z) :=
+  match l with
+  | t :: r =>
+      if t =? 0 then
+        match r with
+        | loc :: r1 => match dec_leaf r1 with Some (c, r2) => Some (MMStore (zn loc) c, r2) | None => None end
+        | _ => None
+        end
+      else if t =? 1 then
+        match r with loc :: sym :: x :: r1 => Some (MMStore8 (zn loc) (sym =? 1) x, r1) | _ => None end
+      else if t =? 2 then
+        match r with
+        | kind :: loc :: off :: size :: r1 =>
+            if kind =? 0 then Some (MCopyIn MCalldata (zn loc) (zn off) (zn size), r1)
+            else if kind =? 1 then Some (MCopyIn MCode (zn loc) (zn off) (zn size), r1)
+            else if kind =? 2 then Some (MCopyIn (MExt None) (zn loc) (zn off) (zn size), r1)
+            else match dec_bvec r1 with
+                 | Some (c, r2) => Some (MCopyIn (MExt (Some c)) (zn loc) (zn off) (zn size), r2)
+                 | None => None
+                 end
+        | _ => None
+        end
+      else if t =? 3 then
+        match r with loc :: off :: size :: r1 => Some (MRetCopy (zn loc) (zn off) (zn size), r1) | _ => None end
+      else if t =? 4 then
+        match r with dst :: src :: size :: r1 => Some (MMCopy (zn dst) (zn src) (zn size), r1) | _ => None end
+      else if t =? 5 then
+        match r with src :: dst :: r1 => Some (MLoadStore (zn src) (zn dst), r1) | _ => None end
+      else None
+  | [] => None
+  end.
+
+Fixpoint dec_mbops (k : nat) (l : list Z) : option (list (mbop Z) * list Z) :=
+  match k with
+  | O => Some ([], l)
+  | S k' =>
+      match dec_mbop l with
+      | Some (o, r) =>
+          match dec_mbops k' r with
+          | Some (os, r2) => Some (o :: os, r2)
+          | None => None
+          end
+      | None => None
+      end
+  end.
+
+Definition dec_mop (l : list Z) : option (mop Z * list Z) :=
+  match l with
+  | t :: r =>
+      if t =? 6 then
+        match dec_bvec r with
+        | Some (cc, aloc :: asize :: nb :: r1) =>
+            match dec_mbops (zn nb) r1 with
+            | Some (body, roff :: rsize :: oloc :: osize :: r2) =>
+                Some (MCall cc (zn aloc) (zn asize) body (zn roff) (zn rsize) (zn oloc) (zn osize), r2)
+            | _ => None
+            end
+        | _ => None
+        end
+      else if t =? 7 then
+        match r with
+        | loc :: size :: nb :: r1 =>
+            match dec_mbops (zn nb) r1 with
+            | Some (body, roff :: rsize :: rev :: r2) =>
+                Some (MCreate (zn loc) (zn size) body (zn roff) (zn rsize) (rev =? 1), r2)
+            | _ => None
+            end
+        | _ => None
+        end
+      else match dec_mbop l with Some (b, r1) => Some (MB b, r1) | None => None end
+  | [] => None
+  end.
+
+Fixpoint dec_mops (k : nat) (l : list Z) : option (list (mop Z) * list Z) :=
+  match k with
+  | O => Some ([], l)
+  | S k' =>
+      match dec_mop l with
+      | Some (o, r) => match dec_mops k' r with Some (os, r2) => Some (o :: os, r2) | None => None end
+      | None => None
+      end
+  end.
+
+Definition c07_mem (a : list Z) : list Z :=
+  match dec_bvec a with
+  | Some (cd, r) =>
+      match dec_bvec r with
+      | Some (code, n :: r1) =>
+          match dec_mops (zn n) r1 with
+          | Some (ops, tail) =>
+              match m_run 0 (ME cd code false) (MF empty empty) ops with
+              | ROk st =>
+                  let t := m_mem st in
+                  let l := flat_map (fun kc => lay (snd kc) (fst kc)) (chunks t) in
+                  let f := flat t in
+                  let rd := flat (m_rd st) in
+                  (* the frame ends with RETURN / REVERT (roff, rsize): State.ret = mslice *)
+                  let out := match tail with
+                             | roff :: rsize :: _ => flat (mslice 0 t (zn roff) (zn rsize))
+                             | _ => []
+                             end in
+                  [0; nz (blen t); nz (List.length l)] ++ l ++ [nz (List.length f)] ++ f
+                    ++ [nz (List.length rd)] ++ rd ++ [nz (msize t)] ++ [nz (List.length out)] ++ out
+              | RHalt => [1]
+              | RErr => [2]
+              end
+          | None => [3]
+          end
+      | _ => [3]
+      end
+  | None => [3]
+  end.
+
+(* the code deployed by a creation executed after [ops]:
+   <bvec calldata> <bvec code> nops <ops> loc size nbody <basic ops> roff rsize
+   -> [0; n; bytes...] deployed | [1] nothing deployed (the init code halts) | [2] | [3] *)
+Definition c07_created (a : list Z) : list Z :=
+  match dec_bvec a with
+  | Some (cd, r) =>
+      match dec_bvec r with
+      | Some (code, n :: r1) =>
+          match dec_mops (zn n) r1 with
+          | Some (ops, loc :: size :: nb :: r2) =>
+              match dec_mbops (zn nb) r2, m_run 0 (ME cd code false) (MF empty empty) ops with
+              | Some (body, roff :: rsize :: _), ROk st =>
+                  match m_created 0 (m_mem st) (zn loc) (zn size) body (zn roff) (zn rsize) with
+                  | ROk (Some v) => [0; nz (blen v)] ++ flat v
+                  | ROk None => [1]
+                  | _ => [2]
+                  end
+              | _, _ => [3]
+              end
+          | _ => [3]
+          end
+      | _ => [3]
+      end
+  | None => [3]
+  end.
+
 Definition table : list (string * (list Z -> list Z)) :=
-  [ ("c07_run"%string, c07_run); ("c07_setitem"%string, c07_setitem) ].
+  [ ("c07_run"%string, c07_run); ("c07_setitem"%string, c07_setitem);
+    ("c07_getitem"%string, c07_getitem); ("c07_mem"%string, c07_mem);
+    ("c07_created"%string, c07_created) ].
 
 Extraction "_build/C07/entries.ml" table.
